@@ -350,6 +350,7 @@ ADV = {
     "fe80_pct": "fe80:%x", "fe80_1_pct": "fe80::1:%x", "v6_tail3": "::ffff:1.2.3", "colons3": ":::", "dc2": "1::2::3",
     "brk_1": "[", "brk_10": "[" * 10, "brk_2000": "[" * 2000, "quote_10": '"' * 10, "nest_1500": "{" * 1500 + "x" + "}" * 1500,
     "empty": "", "uni": "é中文", "ctrl0": "a\x00b", "ctrl1f": "a\x1fb", "ls2028": "a b", "nbsp": "a b", "long5000": "Z" * 5000,
+    "d1": "$1", "dx": "$x", "d6": "$6", "d9": "$9", "d_only": "$", "one": "a", "two": "ab", "d1d": "$1$", "dd": "$$",
     "plainword": "description", "num7": "7", "type7": "02050D480809", "hexval": "ABCDEF12", "v4addr": "10.1.2.3", "v6addr": "2001:db8::1", "asnum": "65001", "word": "kitten",
 }
 FRAMES = {
@@ -403,6 +404,41 @@ def run_c14(ck, tier):
         traces.append(ev)
         meta.append({"case": c, "info": info})
         ck.count(("c14", json.dumps(c, sort_keys=True)))
+    # every recognised line form (the SecretForms table: form x alternatives x format class x wrap x lead), one
+    # FileAnonymizer per salt class: none of them may fail, whatever alternative of the syntax is used
+    import c_secrets
+    import secretgen as SG
+    from netconan.default_reserved_words import default_reserved_words as _drw
+    als = c_secrets.gen_abstract_lines(ck, "all" if thorough else "pairwise")
+    als = c_secrets.stratified(rng("C14", "forms"), als, 3 if thorough else 1)
+    ck.notes["secret_form_lines"] = len(als)
+    for k in range(0, len(als), 40):
+        ev = [{"ev": "cfg", "collapse": True, "clauses": ["Structure"]}]
+        info = [None]
+        salt_name = sorted(SALTS)[(k // 40) % len(SALTS)]
+        try:
+            fa = make_fa(["pwd"] if (k // 40) % 2 else ["pwd", "ip", "word", "as"], SALTS[salt_name])
+        except Exception as e:
+            ev.append({"ev": "exc", "what": "constructor %s: %s" % (type(e).__name__, e)})
+            info.append(("exception:" + type(e).__name__, "constructor"))
+            fa = None
+        for ai, al in enumerate(als[k:k + 40]):
+            conc = SG.concretize(al, rng("C14", "fill", k + ai), rng("C14", "sec", k + ai), set(_drw))
+            if fa is None:
+                break
+            try:
+                out, errs = run_io(fa, conc["line"] + "\n")
+                for m in errs:
+                    ev.append({"ev": "exc", "what": "ERROR logged: " + m})
+                    info.append(("error-log", conc["line"][:160]))
+                ev.append({"ev": "text", "nin": 1, "nout": len(split_keep(out))})
+                info.append(("linecount", "%r -> %r" % (conc["line"][:160], out[:160])))
+            except Exception as e:
+                ev.append({"ev": "exc", "what": "%s: %s" % (type(e).__name__, str(e)[:200])})
+                info.append(("exception:" + type(e).__name__, conc["line"][:160]))
+        traces.append(ev)
+        meta.append({"case": {"frame": "form:" + als[k]["form"], "slots": ["secret-forms"], "salt": salt_name, "feats": ["pwd"]}, "info": info})
+        ck.count(("c14forms", k))
     # a long run through ONE FileAnonymizer (thousands of distinct addresses of both families): no point of the
     # history may make a later line fail
     rl = rng("C14", "longrun")
